@@ -28,6 +28,8 @@ pub fn check(tier: Tier) -> Check {
     // persistent back-pressure on the write half: a future dropped while its packet is half written
     parts.push(Part::new("C15/cancel", json!({"depth": tier.pick(4, 5), "r": 2, "wb": true}), 1, tier.pick(30, 500)));
     parts.push(Part::new("C15/cancel", json!({"depth": tier.pick(3, 4), "r": 1, "wb": true}), 2, tier.pick(30, 500)));
+    // requests made before connect() (and possibly abandoned before it)
+    parts.push(Part::new("C15/cancel", json!({"depth": tier.pick(4, 5), "r": 1, "early": 3}), 0, tier.pick(30, 500)));
     // operations issued on one long-lived handle and on clones of it (a cancelled operation takes the handle with it)
     parts.push(Part::new("C15/cancel", json!({"depth": tier.pick(4, 5), "r": 2, "worker": true}), 0, tier.pick(30, 500)));
     // three established subscriptions: dropping a stream / a response must not disturb the others
